@@ -262,6 +262,11 @@ class Prov:
         if len(args) == 2 and path.startswith(("core::num::", "std::num::")) and last in ("wrapping_add", "saturating_add") \
                 and args[1][0] == "const" and args[1][1] == 0 and not isinstance(args[1][1], bool):
             return args[0]
+        # `x.and_then(|v| body)` is body with v := the payload of x (None / Err of x stays the failure of the whole chain)
+        if last == "and_then" and len(args) == 2 and args[1][0] == "closure" and path.split("::<")[0].endswith(("option::Option", "result::Result")):
+            r = self._beta(args[1], [("q", args[0])])
+            if r is not None:
+                return r
         if last in UNWRAP_LAST and len(args) >= 1:
             return ("q", args[0])
         if last == "branch" and len(args) == 1:
@@ -279,6 +284,44 @@ class Prov:
                     if node["k"] == "=" and (node["rv"].get("ref") is not None and node["rv"].get("m")):
                         return ("call", path, args, bi)
         return ("call", path, args)
+
+    def _beta(self, closure, args):
+        """The value a (single-return, local) closure yields for `args`: its return term with the parameters replaced by the
+        argument terms and the captured environment by the captured terms; None when that is not a plain substitution."""
+        facts = self.fn.facts
+        cf = facts.fns.get(closure[1]) if facts is not None else None
+        if cf is None or cf.argc != 1 + len(args):
+            return None
+        rets = [bi for bi, bb in enumerate(cf.blocks) if bb["t"]["k"] == "ret"]
+        if len(rets) != 1 or len(cf.blocks) > 12:
+            return None
+        body = prov_of(cf).local(0, rets[0], len(cf.blocks[rets[0]]["s"]))
+        names = [(cf.locals[i].get("n") or ("arg%d" % i)) for i in range(1, cf.argc + 1)]
+        env, params = names[0], names[1:]
+        caps = closure[2]
+        bad = []
+
+        def sub(t):
+            if not isinstance(t, tuple) or not t:
+                return t
+            if isinstance(t[0], str):
+                if t[0] == "field" and t[1] == ("param", env) and str(t[2]).isdigit():
+                    k = int(t[2])
+                    if k < len(caps):
+                        return caps[k]
+                    bad.append(t)
+                    return t
+                if t[0] == "param":
+                    if t[1] in params:
+                        return args[params.index(t[1])]
+                    bad.append(t)
+                    return t
+                if t[0] == "phi":
+                    return ("phi", frozenset(sub(x) for x in t[1]))
+                return tuple([t[0]] + [sub(x) if isinstance(x, (tuple, frozenset)) else x for x in t[1:]])
+            return tuple(sub(x) if isinstance(x, (tuple, frozenset)) else x for x in t)
+        out = sub(body)
+        return None if bad else out
 
     def _vec_macro_array(self, op, depth):
         """`vec![a, b, c]` lowers to Box::new_uninit(); (*ptr).value.. = [a, b, c]; box_assume_init_into_vec_unsafe(box).
